@@ -45,25 +45,53 @@ Proof. rewrite sa_txt_app. apply s_head_free. Qed.
 Lemma sa_not_not a k : fspecj not_alt1 (app (sa_txt a) k).
 Proof. rewrite sa_txt_app. apply s_head_not_not. Qed.
 
-(* ---- "lit" [not] in sel ---- *)
-Record matom := { m_lit : qlit; m_lay : oplay; m_sr : selr; m_neg : bool }.
-Definition m_exp (a : matom) : expr := EMatch (s_val (m_sr a)) (if m_neg a then OpNotIn else OpIn) (Some (l_lit (m_lit a))).
+(* ---- value [not] in sel: the value on the left is a literal in any style on which Selector fails at once -
+        double-quoted (not starting with '/'), back-quoted, an integer or a number (instances: lval_of_qlit, lval_of_rlit here;
+        lval_of_int, lval_of_number in AtomsLeft.v) ---- *)
+Record lval := {
+  lv_v : vlit;
+  lv_selfails : forall k, fspecj (PRef "Selector") (app (v_txt lv_v) k);
+  lv_not_paren : forall k, head_not 40 (app (v_txt lv_v) k);
+  lv_not_n : forall k, head_not 110 (app (v_txt lv_v) k) }.
+
+Definition lval_of_qlit (l : qlit) : lval.
+Proof.
+  refine {| lv_v := of_qlit l |}.
+  - intros k. cbn [of_qlit v_txt]. rewrite q_txt_app. unfold l_cells. cbn [app].
+    exact (selector_fails_on_quote (l_q l) (l_x l) _ (l_hq l) (l_hx l) (Forall_inv (l_body l))).
+  - intros k. cbn [of_qlit v_txt]. rewrite q_txt_app. cbn. rewrite (l_hq l). discriminate.
+  - intros k. cbn [of_qlit v_txt]. rewrite q_txt_app. cbn. rewrite (l_hq l). discriminate.
+Defined.
+
+Definition lval_of_rlit (l : rlit) : lval.
+Proof.
+  refine {| lv_v := of_rlit l |}.
+  - intros k. cbn [of_rlit v_txt app]. exact (selector_fails_on_bq (r_q l) _ (r_hq l)).
+  - intros k. cbn [of_rlit v_txt app]. cbn. rewrite (r_hq l). discriminate.
+  - intros k. cbn [of_rlit v_txt app]. cbn. rewrite (r_hq l). discriminate.
+Defined.
+
+Record matom := { m_lit : lval; m_lay : oplay; m_sr : selr; m_neg : bool }.
+Definition m_exp (a : matom) : expr := EMatch (s_val (m_sr a)) (if m_neg a then OpNotIn else OpIn) (Some (v_lit (lv_v (m_lit a)))).
 Definition m_optext (neg : bool) (l : oplay) (rest : list cell) : list cell :=
   if neg then n_optext l rest else o_x1 l :: app (o_a1 l) (app K_in (o_x2 l :: app (o_a2 l) rest)).
-Definition m_txtK (a : matom) (k : list cell) : list cell := l_cells (m_lit a) (m_optext (m_neg a) (m_lay a) (app (s_txt (m_sr a)) k)).
+Definition m_txtK (a : matom) (k : list cell) : list cell :=
+  app (v_txt (lv_v (m_lit a))) (m_optext (m_neg a) (m_lay a) (app (s_txt (m_sr a)) k)).
 Definition m_txt (a : matom) : list cell := m_txtK a [].
 Lemma m_txt_app a k : app (m_txt a) k = m_txtK a k.
 Proof.
-  unfold m_txt, m_txtK, m_optext, n_optext, l_cells. destruct (m_neg a); repeat (cbn [app]; rewrite <- ?app_assoc); reflexivity.
+  unfold m_txt, m_txtK, m_optext, n_optext. rewrite <- app_assoc. f_equal.
+  destruct (m_neg a); repeat (cbn [app]; rewrite <- ?app_assoc); rewrite ?app_nil_r; reflexivity.
 Qed.
+
+Lemma m_optext_astop neg l rest : astop (m_optext neg l rest).
+Proof. unfold m_optext, n_optext. destruct neg; cbn; left; exact (o_h1 l). Qed.
 
 Lemma m_parse a k : astop k -> spec (PRef "MatchExpression") (app (m_txt a) k) (VExpr (m_exp a)) k.
 Proof.
   intros Hk. rewrite m_txt_app. unfold m_txtK.
   set (l := m_lay a). set (K1 := m_optext (m_neg a) l (app (s_txt (m_sr a)) k)).
-  assert (Hself : fspecj (PRef "Selector") (l_cells (m_lit a) K1)).
-  { unfold l_cells. cbn [app].
-    exact (selector_fails_on_quote (l_q (m_lit a)) (l_x (m_lit a)) _ (l_hq (m_lit a)) (l_hx (m_lit a)) (Forall_inv (l_body (m_lit a)))). }
+  pose proof (lv_selfails (m_lit a) K1) as Hself.
   pose proof (s_spec (m_sr a) k (astop_sstop k Hk)) as Hsel.
   pose proof (s_head_free (m_sr a) k) as Hfree.
   eapply ref_ok; [reflexivity|]. cbn [rexpr]. apply spec_j. apply choice_ok.
@@ -74,7 +102,7 @@ Proof.
   apply specc_here. apply spec_j. eapply ref_ok; [reflexivity|]. cbn [rexpr]. apply spec_j. apply choice_ok. apply specc_here.
   eapply action_ok with (v' := VExpr (m_exp a)).
   - apply seq_ok.
-    eapply seqs_cons; [apply lab_ok; apply (l_value (m_lit a) K1)|].
+    eapply seqs_cons; [apply lab_ok; apply (v_spec (lv_v (m_lit a)) K1 (m_optext_astop _ _ _))|].
     eapply seqs_cons; [|eapply seqs_cons; [apply lab_ok; exact Hsel| apply seqs_nil]].
     apply (lab_ok "operator" _ _ (VMOp (if m_neg a then OpNotIn else OpIn))). apply choice_ok. unfold K1, m_optext. destruct (m_neg a).
     + apply specc_next.
@@ -98,13 +126,13 @@ Proof.
 Qed.
 
 Lemma m_not_paren a k : head_not 40 (app (m_txt a) k).
-Proof. rewrite m_txt_app. cbn. rewrite (l_hq (m_lit a)). discriminate. Qed.
+Proof. rewrite m_txt_app. unfold m_txtK. apply lv_not_paren. Qed.
 Lemma m_head a k : ws_free (app (m_txt a) k).
-Proof. rewrite m_txt_app. cbn. rewrite (l_hq (m_lit a)). reflexivity. Qed.
+Proof. rewrite m_txt_app. unfold m_txtK. apply (v_free (lv_v (m_lit a))). Qed.
 Lemma m_not_not a k : fspecj not_alt1 (app (m_txt a) k).
 Proof.
-  rewrite m_txt_app. apply faction. apply fseq. apply fseqs_here.
-  refine (fails_f (head_not 110) _ _ (fails_lit 110 [111; 116]%Z) _). cbn. rewrite (l_hq (m_lit a)). discriminate.
+  rewrite m_txt_app. unfold m_txtK. apply faction. apply fseq. apply fseqs_here.
+  refine (fails_f (head_not 110) _ _ (fails_lit 110 [111; 116]%Z) _). apply lv_not_n.
 Qed.
 
 (* ---- the final atom universe: every match operator, every selector spelling ---- *)
